@@ -198,6 +198,14 @@ VAReadv(e) ==
      ELSE IF NormR(e.res) # want THEN V("C31_adapter_readv", H)
      ELSE V("", H)
 
+\* one read-test-write call naming two shares, megabytes of data, and a test on the second share that fails (the data is not
+\* in the trace): RTW with a failing test changes nothing and reports failure - through the client's adapter and directly
+VABigRTW(e) ==
+  IF e.how # "ok" THEN V("C24_adapter_big_request_failed", H)
+  ELSE IF e.success \/ ~e.same THEN V("C24_adapter_big_request_not_atomic", H)
+  ELSE IF e.dsuccess # FALSE \/ ~e.dsame THEN V("C24_direct_big_request_not_atomic", H)
+  ELSE V("", H)
+
 \* a zero-delay call of the server (a timer, an eventual-send) raised while the request was being served
 RaisedClause == IF Traces[tid].consts.mode = "authz" THEN "C30_server_side_exception" ELSE "C31_server_side_exception"
 Verdict(e) ==
@@ -208,6 +216,7 @@ Verdict(e) ==
     [] e.ev = "ClientRead0" -> VClientRead0(e)
     [] e.ev = "Advance" -> VAdvance(e)
     [] e.ev = "Expire"  -> VExpire(e)
+    [] e.ev = "ABigRTW" -> VABigRTW(e)
     [] OTHER            -> V("unknown_event", H)
 
 TraceInit ==
